@@ -213,6 +213,26 @@ func checkC01(c *Ctx) {
 	// post-hook message must be φ(pre-hook alloc, Emit result)
 	if postHook != nil {
 		okPhi := false
+		// the message kept in a variable a closure reads (the loop body as a local function):
+		// the variable is assigned the pre-hook record and, on the other branch, the hook's answer
+		if cell := cellOfLoad(postHook); cell != nil {
+			nAlloc, nEmit, other := 0, 0, 0
+			for _, st := range eng.CellStores(cell) {
+				switch x := st.Val.(type) {
+				case *ssa.Alloc:
+					nAlloc++
+				case *ssa.Call:
+					if o := eng.CalleeObj(x.Common()); o != nil && strings.Contains(eng.CalleeName(x.Common()), "EventBroker") && strings.HasSuffix(o.Name(), "Emit") {
+						nEmit++
+					} else {
+						other++
+					}
+				default:
+					other++
+				}
+			}
+			okPhi = nAlloc == 1 && nEmit == 1 && other == 0
+		}
 		if ph, ok := postHook.(*ssa.Phi); ok && len(ph.Edges) == 2 {
 			nAlloc, nEmit := 0, 0
 			for _, e := range ph.Edges {
@@ -531,6 +551,86 @@ func (c *Ctx) c01MailboxesAs(rule string, deliver *ssa.Function, fMailboxes, fRe
 			hit := (&eng.Search{Target: func(in ssa.Instruction) bool { return in == at }, Edge: edgeOK}).FromBlockStart(start)
 			return hit == nil
 		}
+		// checkElem: the value the store st puts into the destination list (appended at the
+		// call `at`, or written in place at `at` = st) is recip.Mailbox of a ranged recipient
+		// under ShouldStore() true, and the decision is taken for every recipient
+		checkElem := func(at ssa.Instruction, st *ssa.Store, e env) (okEl bool) {
+			u, ok := st.Val.(*ssa.UnOp)
+			if !ok || !eng.SameField(eng.AddrField(u.X), fRecipMb) {
+				probs = append(probs, "appended value is not recip.Mailbox at "+p.InstrPos(st))
+				return false
+			}
+			recip := u.X.(*ssa.FieldAddr).X
+			ru, ok := recip.(*ssa.UnOp)
+			if !ok {
+				probs = append(probs, "appended mailbox does not belong to a ranged recipient")
+				return false
+			}
+			ia2, ok := ru.X.(*ssa.IndexAddr)
+			if !ok || p.Actual(res(ia2.X, e)) != ssa.Value(recipients) {
+				probs = append(probs, "appended mailbox does not belong to an element of the recipients parameter")
+				return false
+			}
+			g := false
+			fnA := at.Parent()
+			for _, b := range fnA.Blocks {
+				for k := 0; k < len(b.Succs) && len(b.Succs) == 2; k++ {
+					cv, pol, ok := eng.CondTruth(b, k)
+					if !ok || !pol || !eng.EdgeDominates(b, k, at.Block()) {
+						continue
+					}
+					if call, ok := cv.(*ssa.Call); ok && eng.StaticCallee(call.Common()) == shouldStore && call.Call.Args[0] == recip {
+						g = true
+					}
+				}
+			}
+			if !g && fnA != deliver {
+				g = guardedByShouldStore(at, recip, e)
+			}
+			if !g {
+				probs = append(probs, "recip.Mailbox is appended at "+p.InstrPos(at)+" without recip.ShouldStore() being true for the same recipient: mail for a discard domain is stored")
+			} else {
+				okEl = true
+				// converse: the decision is taken for every ranged recipient and a
+				// positive decision always reaches the append
+				if hs := loopHeaders(ru.Block()); len(hs) > 0 {
+					header := hs[len(hs)-1]
+					for _, h := range hs {
+						if h.Dominates(header) {
+							continue
+						}
+						if header.Dominates(h) {
+							header = h
+						}
+					}
+					next := func(in ssa.Instruction) bool { return in.Block() == header && in == header.Instrs[0] }
+					var ssCall ssa.Instruction
+					eng.EachInstr(fnA, func(y ssa.Instruction) {
+						if call, ok := y.(*ssa.Call); ok && eng.StaticCallee(call.Common()) == shouldStore && call.Call.Args[0] == recip {
+							ssCall = y
+						}
+					})
+					if ssCall != nil {
+						if (&eng.Search{Target: next, Avoid: func(y ssa.Instruction) bool { return y == ssCall || y == at }}).After(ru) != nil {
+							probs = append(probs, "a ranged recipient can be passed over before recip.ShouldStore() is asked (path from "+p.InstrPos(ru)+" to the next iteration avoiding "+p.InstrPos(ssCall)+"): whether its mail is stored then depends on something other than its own domain's policy")
+						}
+						for _, b := range fnA.Blocks {
+							for k := 0; k < len(b.Succs) && len(b.Succs) == 2; k++ {
+								cv, pol, ok := eng.CondTruth(b, k)
+								if !ok || !pol || cv != ssa.Value(ssCall.(*ssa.Call)) {
+									continue
+								}
+								if (&eng.Search{Target: next, Avoid: func(y ssa.Instruction) bool { return y == at }}).FromBlockStart(b.Succs[k]) != nil {
+									probs = append(probs, "a recipient whose ShouldStore() is true can be left out of the destination list (path from the true edge at "+p.InstrPos(eng.IfOf(b))+" to the next iteration avoiding the append)")
+								}
+							}
+						}
+					}
+				}
+			}
+
+			return okEl
+		}
 		var walk func(v ssa.Value, e env)
 		walk = func(v ssa.Value, e env) {
 			v = res(v, e)
@@ -544,9 +644,58 @@ func (c *Ctx) c01MailboxesAs(rule string, deliver *ssa.Function, fMailboxes, fRe
 					walk(ed, e)
 				}
 			case *ssa.Slice:
-				if k, ok := eng.ConstInt(x.High); !(ok && k == 0) {
-					probs = append(probs, "base list is not emptied ([:0]) at "+p.InstrPos(x))
+				if k, ok := eng.ConstInt(x.High); ok && k == 0 {
+					break
 				}
+				// compaction in place: list[:kept] where kept counts from 0 and every
+				// list[kept] = recip.Mailbox is followed by kept++ (same block)
+				if kh, ok := x.High.(*ssa.Phi); ok && x.Low == nil && isRangeCounterFromZero(kh) {
+					nSt, okAll := 0, true
+					eng.EachInstr(x.Parent(), func(in ssa.Instruction) {
+						st, ok := in.(*ssa.Store)
+						if !ok {
+							return
+						}
+						ia, ok := st.Addr.(*ssa.IndexAddr)
+						if !ok || res(ia.X, e) != res(x.X, e) {
+							return
+						}
+						if len(loopHeaders(st.Block())) == 0 || !kh.Block().Dominates(st.Block()) || kh.Block() == st.Block() && false {
+							return // the initial fill before the hook ran
+						}
+						if ia.Index != ssa.Value(kh) {
+							// a write elsewhere in the list inside the compaction loop
+							if eng.Dominates(kh.Block().Instrs[0], st) && inLoopOf(kh.Block(), st.Block()) {
+								okAll = false
+							}
+							return
+						}
+						if !inLoopOf(kh.Block(), st.Block()) {
+							return
+						}
+						nSt++
+						// kept++ in the same block
+						inc := false
+						for _, bi := range st.Block().Instrs {
+							if bo, ok := bi.(*ssa.BinOp); ok && bo.Op == token.ADD && bo.X == ssa.Value(kh) {
+								if k1, isC := eng.ConstInt(bo.Y); isC && k1 == 1 {
+									inc = true
+								}
+							}
+						}
+						if !inc || !checkElem(st, st, e) {
+							okAll = false
+						}
+					})
+					if nSt == 1 && okAll {
+						break
+					}
+					if len(probs) == 0 {
+						probs = append(probs, "the list is cut to a counted length at "+p.InstrPos(x)+" but the counter does not count exactly the recipients stored in place")
+					}
+					break
+				}
+				probs = append(probs, "base list is not emptied ([:0]) at "+p.InstrPos(x))
 			case *ssa.Const:
 			case *ssa.MakeSlice:
 				if k, ok := eng.ConstInt(x.Len); !(ok && k == 0) {
@@ -585,78 +734,8 @@ func (c *Ctx) c01MailboxesAs(rule string, deliver *ssa.Function, fMailboxes, fRe
 									if !ok {
 										continue
 									}
-									u, ok := st.Val.(*ssa.UnOp)
-									if !ok || !eng.SameField(eng.AddrField(u.X), fRecipMb) {
-										probs = append(probs, "appended value is not recip.Mailbox at "+p.InstrPos(st))
-										continue
-									}
-									recip := u.X.(*ssa.FieldAddr).X
-									ru, ok := recip.(*ssa.UnOp)
-									if !ok {
-										probs = append(probs, "appended mailbox does not belong to a ranged recipient")
-										continue
-									}
-									ia2, ok := ru.X.(*ssa.IndexAddr)
-									if !ok || p.Actual(res(ia2.X, e)) != ssa.Value(recipients) {
-										probs = append(probs, "appended mailbox does not belong to an element of the recipients parameter")
-										continue
-									}
-									g := false
-									fnA := x.Parent()
-									for _, b := range fnA.Blocks {
-										for k := 0; k < len(b.Succs) && len(b.Succs) == 2; k++ {
-											cv, pol, ok := eng.CondTruth(b, k)
-											if !ok || !pol || !eng.EdgeDominates(b, k, x.Block()) {
-												continue
-											}
-											if call, ok := cv.(*ssa.Call); ok && eng.StaticCallee(call.Common()) == shouldStore && call.Call.Args[0] == recip {
-												g = true
-											}
-										}
-									}
-									if !g && fnA != deliver {
-										g = guardedByShouldStore(x, recip, e)
-									}
-									if !g {
-										probs = append(probs, "recip.Mailbox is appended at "+p.InstrPos(x)+" without recip.ShouldStore() being true for the same recipient: mail for a discard domain is stored")
-									} else {
+									if checkElem(x, st, e) {
 										okEl = true
-										// converse: the decision is taken for every ranged recipient and a
-										// positive decision always reaches the append
-										if hs := loopHeaders(ru.Block()); len(hs) > 0 {
-											header := hs[len(hs)-1]
-											for _, h := range hs {
-												if h.Dominates(header) {
-													continue
-												}
-												if header.Dominates(h) {
-													header = h
-												}
-											}
-											next := func(in ssa.Instruction) bool { return in.Block() == header && in == header.Instrs[0] }
-											var ssCall ssa.Instruction
-											eng.EachInstr(fnA, func(y ssa.Instruction) {
-												if call, ok := y.(*ssa.Call); ok && eng.StaticCallee(call.Common()) == shouldStore && call.Call.Args[0] == recip {
-													ssCall = y
-												}
-											})
-											if ssCall != nil {
-												if (&eng.Search{Target: next, Avoid: func(y ssa.Instruction) bool { return y == ssCall || y == ssa.Instruction(x) }}).After(ru) != nil {
-													probs = append(probs, "a ranged recipient can be passed over before recip.ShouldStore() is asked (path from "+p.InstrPos(ru)+" to the next iteration avoiding "+p.InstrPos(ssCall)+"): whether its mail is stored then depends on something other than its own domain's policy")
-												}
-												for _, b := range fnA.Blocks {
-													for k := 0; k < len(b.Succs) && len(b.Succs) == 2; k++ {
-														cv, pol, ok := eng.CondTruth(b, k)
-														if !ok || !pol || cv != ssa.Value(ssCall.(*ssa.Call)) {
-															continue
-														}
-														if (&eng.Search{Target: next, Avoid: func(y ssa.Instruction) bool { return y == ssa.Instruction(x) }}).FromBlockStart(b.Succs[k]) != nil {
-															probs = append(probs, "a recipient whose ShouldStore() is true can be left out of the destination list (path from the true edge at "+p.InstrPos(eng.IfOf(b))+" to the next iteration avoiding the append)")
-														}
-													}
-												}
-											}
-										}
 									}
 								}
 							}
@@ -771,6 +850,15 @@ func (c *Ctx) c01Meta(deliver *ssa.Function, adds []*ssa.Call, anchor ssa.Instru
 	if anchor == nil {
 		anchor = adds[0]
 	}
+	// sameMsg: v is the post-hook message: the value itself, or another load of the variable
+	// that holds it
+	sameMsg := func(v ssa.Value) bool {
+		if v == postHook {
+			return true
+		}
+		c1, c2 := cellOfLoad(v), cellOfLoad(postHook)
+		return c1 != nil && c1 == c2
+	}
 	want := map[string]string{"From": "From", "To": "To", "Subject": "Subject", "Size": "Size"}
 	got := map[string]bool{}
 	var probs []string
@@ -782,7 +870,7 @@ func (c *Ctx) c01Meta(deliver *ssa.Function, adds []*ssa.Call, anchor ssa.Instru
 			okMb := false
 			if u, ok := p.Actual(st.Val).(*ssa.UnOp); ok {
 				if ia, ok := u.X.(*ssa.IndexAddr); ok && eng.SameField(eng.LoadedField(ia.X), fMailboxes) && isRangeCounter(ia.Index) && len(loopHeaders(ia.Block())) == 1 {
-					if p.Actual(ia.X.(*ssa.UnOp).X.(*ssa.FieldAddr).X) == postHook {
+					if sameMsg(p.Actual(ia.X.(*ssa.UnOp).X.(*ssa.FieldAddr).X)) {
 						okMb = true
 					}
 				}
@@ -794,7 +882,7 @@ func (c *Ctx) c01Meta(deliver *ssa.Function, adds []*ssa.Call, anchor ssa.Instru
 			f := eng.LoadedField(st.Val)
 			okF := f != nil && f.Name() == want[name]
 			if okF {
-				if base, ok := st.Val.(*ssa.UnOp).X.(*ssa.FieldAddr); !ok || p.Actual(base.X) != postHook {
+				if base, ok := st.Val.(*ssa.UnOp).X.(*ssa.FieldAddr); !ok || !sameMsg(p.Actual(base.X)) {
 					okF = false
 				}
 			}
@@ -879,4 +967,63 @@ func (c *Ctx) c01Meta(deliver *ssa.Function, adds []*ssa.Call, anchor ssa.Instru
 	} else {
 		r.Ok("C01/META", "Delivery.Meta", p.InstrPos(adds[0]), "Mailbox = Mailboxes[i]; From/To/Subject/Size from the post-hook InboundMessage; Date set")
 	}
+}
+
+// isRangeCounterFromZero: ph = φ(0, …) at a loop header whose other edge leads back to ph or ph+1
+// (a counter that starts at zero and is incremented on some iterations).
+func isRangeCounterFromZero(ph *ssa.Phi) bool {
+	zero, back := false, false
+	var derives func(v ssa.Value, depth int) bool
+	derives = func(v ssa.Value, depth int) bool {
+		if depth > 4 {
+			return false
+		}
+		if v == ssa.Value(ph) {
+			return true
+		}
+		switch x := v.(type) {
+		case *ssa.BinOp:
+			k, isC := eng.ConstInt(x.Y)
+			return x.Op == token.ADD && isC && k == 1 && x.X == ssa.Value(ph)
+		case *ssa.Phi:
+			for _, e := range x.Edges {
+				if !derives(e, depth+1) {
+					return false
+				}
+			}
+			return len(x.Edges) > 0
+		}
+		return false
+	}
+	for _, e := range ph.Edges {
+		if k, isC := eng.ConstInt(e); isC && k == 0 {
+			zero = true
+			continue
+		}
+		if derives(e, 0) {
+			back = true
+			continue
+		}
+		return false
+	}
+	return zero && back
+}
+
+// inLoopOf: b lies in a loop whose header is h.
+func inLoopOf(h, b *ssa.BasicBlock) bool {
+	for _, x := range loopHeaders(b) {
+		if x == h {
+			return true
+		}
+	}
+	return false
+}
+
+// cellOfLoad: the local variable cell v was loaded from, if any.
+func cellOfLoad(v ssa.Value) *ssa.Alloc {
+	ad := eng.LoadAddr(v)
+	if ad == nil {
+		return nil
+	}
+	return eng.CellOf(ad)
 }
